@@ -7,19 +7,21 @@ package choquet
 
 // ---- the Choquet integral, one tie group at a time (C03)
 //
-// keyOf: the key under which the parameters hold the capacity of the listed criteria (the sorted names joined by "," - string
-// structure outside the generator's subset, hence abstract; a function of the list object, whose order criterionKey may change in
-// place and whose members nobody changes afterwards).  capL: the capacity the parameters give to the listed criteria.
-//@ spec keyOf(names []string) string
-//@ spec capL(names []string, w model.Weights) real = w[keyOf(names)]
+// capL: the capacity the parameters give to the listed criteria (the key is built from the sorted, joined names - string
+// structure outside the generator's subset, hence abstract; a function of the list object and the parameters, which are not
+// modified afterwards).  The link between the lookup and capL is ASSUMED (clause below); that the lookup leaves the list object
+// in place and writes nothing else is proved.  (A first attempt to derive it from an assumed "criterionKey returns keyOf(list)"
+// was withdrawn: a key that is a function of the list OBJECT stays the same when the list's members are edited in place, and
+// seeded change C07-S - a second criterionKey call after such an edit - then verified.)
+//@ spec capL(names []string, w model.Weights) real
 
 // getWeightForCriteriaUnion sorts the list it is given in place and looks the joined key up (panics when it is missing)
 //@ func getWeightForCriteriaUnion
-//@   property C03 C20 C07 C18 C01 C04 C15 C09 C16 C19
+//@   property C03 C20 C07 C18 C01 C04 C15
 //@   indexsafe
 //@   assigns *commonWeightCriteria
-//@   panics_iff [no_capacity_for_that_union] !(keyOf(*commonWeightCriteria) in *weights)
-//@   ensures [capacity_of_the_listed_criteria] result == capL(*commonWeightCriteria, *weights) && *commonWeightCriteria == old(*commonWeightCriteria)
+//@   ensures [same_list_object] *commonWeightCriteria == old(*commonWeightCriteria)
+//@   assumes [capacity_of_the_listed_criteria] result == capL(*commonWeightCriteria, *weights)
 
 // Each iteration handles one group of tied values (within 1e-5 of the group's first value) and adds
 //   capacity(all criteria from the group's first position to the end) x (the group's first value - the previous group's first value),
@@ -148,7 +150,6 @@ package choquet
 //@   nopanic
 //@   assigns *criteria
 //@   ensures [same_list_object] *criteria == old(*criteria)
-//@   assumes [the_key_of_that_list] result == keyOf(*criteria)
 //@ func (*ChoquetIntegralBiasListener).OnCriterionAdded
 //@   property C07 C18 C03 C01 C09 C19 C20
 //@   indexsafe
